@@ -174,14 +174,14 @@ def view(klepto, backend, w, keys):
 # scheduling points (C14): the worker stops before every file-system call of the archive and waits
 # ---------------------------------------------------------------------------------------------
 
-def install_stepping(root):
+def install_stepping(root, inp=None, out=None):
     """before every file-system call on the archive the worker prints 'AT <label>' and waits for a line on stdin.
     Calls seen through audit events: open, os.mkdir, os.rename, os.remove, os.rmdir, os.scandir / os.listdir.
     Not audited, so wrapped here: the first write() and the close() of a file opened for writing, os.path.exists."""
     import builtins
     import io
-    out = sys.__stdout__
-    inp = sys.stdin
+    out = out or sys.__stdout__
+    inp = inp or sys.stdin
     root = os.path.realpath(root)
     busy = [False]
 
@@ -294,14 +294,45 @@ class StepCursor(object):
         return getattr(self._c, name)
 
 
-def install_sql_stepping(a):
-    out, inp = sys.__stdout__, sys.stdin
+def install_sql_stepping(a, inp=None, out=None):
+    out, inp = out or sys.__stdout__, inp or sys.stdin
 
     def at(label):
         out.write('AT %s\n' % label)
         out.flush()
         inp.readline()
     a._engine = StepCursor(a._engine, at)
+
+
+def forkstep(klepto, backend, w, keys, spec):
+    """ONE archive object, created here, then used by forked children (what multiprocessing's fork start method does with
+    a module-level archive or memoized function): child i talks to the controller through the FIFOs <w>/.ctl/in<i>, out<i>"""
+    a = raw_open(klepto, backend, w)
+    for k, v in enumerate(spec['init'], 1):
+        if v:
+            a[keyobj(keys, k)] = v
+    ctl = os.path.join(w, '.ctl')
+    pids = []
+    for i, op in enumerate(spec['ops'], 1):
+        pid = os.fork()
+        if pid == 0:
+            inp = open(os.path.join(ctl, 'in%d' % i), 'r')
+            out = open(os.path.join(ctl, 'out%d' % i), 'w')
+            try:
+                install_stepping(w, inp, out)
+                out.write('ready\n')
+                out.flush()
+                inp.readline()
+                res = do_op(klepto, backend, w, keys, a, op)
+                out.write('RES ' + json.dumps(res) + '\n')
+                out.flush()
+            finally:
+                os._exit(0)
+        pids.append(pid)
+    sys.stdout.write('forked\n')
+    sys.stdout.flush()
+    for pid in pids:
+        os.waitpid(pid, 0)
 
 
 def main():
@@ -315,6 +346,8 @@ def main():
         sys.stdout.write(json.dumps(view(klepto, backend, w, keys)) + '\n')
         sys.stdout.flush()
         return
+    if role == 'forkstep':
+        return forkstep(klepto, backend, w, keys, spec)
     a = raw_open(klepto, backend, w)
     if not spec.get('noinit'):
         for k, v in enumerate(spec['init'], 1):
